@@ -282,7 +282,7 @@ func c17Build(p *c17Prog, r *rand.Rand, variant int) (c17Case, bool) {
 			blank := r.IntN(2) == 0
 			v1 := t[i].Text
 			if blank {
-				v1 += " "
+				v1 += pick(r, []string{" ", "\t", "  ", " \t", "\t "})
 			}
 			al := map[string]string{"ALIAS_1": v1, "ALIAS_2": t[i+1].Text}
 			src := text[:t[i].Off] + "ALIAS_1 ALIAS_2" + text[p.end(i+1):]
